@@ -567,6 +567,17 @@ impl Transaction {
         Ok(transaction)
     }
 
+    /// fee, rebroadcast and placeholder transactions are created by block producers, and
+    /// issuance only exists in the first block. none of them is acceptable as a loose
+    /// transaction received from a peer or application.
+    pub fn is_producer_only(&self, chain_is_empty: bool) -> bool {
+        match self.transaction_type {
+            TransactionType::Fee | TransactionType::ATR | TransactionType::SPV => true,
+            TransactionType::Issuance => !chain_is_empty,
+            _ => false,
+        }
+    }
+
     pub fn is_fee_transaction(&self) -> bool {
         self.transaction_type == TransactionType::Fee
     }
